@@ -423,17 +423,35 @@ def build():
         return (not bad), bad[:3], 1
     plan.ground.append(("rich-text-lookup-scans-every-entry", rich_text_scan_is_exhaustive))
 
-    # ------------------------------------------------------------------ storage_buffers: every row is decoded with ITS OWN buffer, offsets and offset width
+    # ------------------------------------------------------------------ storage_buffers / row_storage_map
+    # Row records are stored tile by tile.  FLAT(t) = number of row records in the tiles before tile t (a recursively defined
+    # ghost function: FLAT(0) = 0, FLAT(t+1) = FLAT(t) + NREC(t)); record r of tile t has flat position FLAT(t) + r.
+    #   storage_buffers:  the k-th buffer of the result is decoded from the record at flat position k, with ITS OWN buffer, offsets
+    #                     and offset width, for the table's width;
+    #   row_storage_map:  the record at flat position k is mapped from its OWN row (tile id * tile size + its index in the tile) to k,
+    #                     whatever the record holds (a record without cells still occupies a position), one store per record.
+    # Together: storage_buffer(row) reads the bytes of the record that declares that row, in any tile layout.
+    FLAT = z3.Function("C06_FLAT", Int, Int)
+    NREC = z3.Function("C06_NREC", Int, Int)
+
+    def flat_facts(ex, t):
+        ex.assume(z3.And(FLAT(0) == 0, NREC(t) >= 0, FLAT(t) >= 0, FLAT(t + 1) == FLAT(t) + NREC(t)))
+
     class RowInfosV(Custom):
-        def __init__(self, n):
-            self.n = n
+        def __init__(self, tile):
+            self.tile = tile
 
         def length(self, ex):
-            return self.n
+            return NREC(self.tile)
 
         def getitem(self, ex, idx, line):
-            owner = z3.Int(fresh_name("row_record"))
-            return PObj("RowInfoV", {k: PObj("FieldOf", {"owner": owner, "what": k}) for k in ("cell_storage_buffer", "cell_offsets", "has_wide_offsets")})
+            owner = FLAT(self.tile) + T(idx)
+            f = {k: PObj("FieldOf", {"owner": owner, "what": k}) for k in ("cell_storage_buffer", "cell_offsets", "has_wide_offsets")}
+            f["tile_row_index"] = ex.fresh("int", "tile_row_index")
+            f["cell_count"] = ex.fresh("int", "cell_count")
+            ex.assume(z3.And(T(f["tile_row_index"]) >= 0, T(f["cell_count"]) >= 0))
+            f["g_flat"] = SInt(owner)
+            return PObj("RowInfoV", f)
 
     class TilesV(Custom):
         def __init__(self, n):
@@ -443,9 +461,8 @@ def build():
             return self.n
 
         def getitem(self, ex, idx, line):
-            rn = z3.Int(fresh_name("n_rowinfos"))
-            ex.assume(rn >= 0)
-            return PObj("TileV", {"last_saved_in_BNC": ex.fresh("bool", "bnc"), "rowInfos": RowInfosV(rn)})
+            flat_facts(ex, T(idx))
+            return PObj("TileV", {"last_saved_in_BNC": ex.fresh("bool", "bnc"), "rowInfos": RowInfosV(T(idx))})
 
     class BufListV(Custom):
         def __init__(self):
@@ -457,6 +474,8 @@ def build():
         def method(self, ex, name, args, kwargs, line):
             if name != "append" or not (isinstance(args[0], PObj) and args[0].cls == "RowBuffersV"):
                 raise Unsupported(f"buffers.{name}")
+            ex.oblige(f"buffer-k-is-decoded-from-record-k@L{line}: the buffers are appended in flat record order, one per record",
+                      args[0].fields["owner"] == self.ln, "ghost", line)
             self.ln = self.ln + 1
 
     def sb_callee(ex, args, kwargs, line):
@@ -464,29 +483,123 @@ def build():
         ok = all(isinstance(x, PObj) and x.cls == "FieldOf" for x in (buf, offs, wide))
         if not ok:
             ex.oblige(f"row-decoded-from-its-own-record@L{line}: buffer, offsets and offset width are fields of a row record", z3.BoolVal(False), "ghost", line)
-            return PObj("RowBuffersV", {})
+            return PObj("RowBuffersV", {"owner": z3.Int(fresh_name("nobody"))})
         ex.oblige(f"row-decoded-from-its-own-record@L{line}: buffer, offsets and offset width come from the same row record",
                   z3.And(buf.fields["owner"] == offs.fields["owner"], offs.fields["owner"] == wide.fields["owner"],
                          z3.BoolVal((buf.fields["what"], offs.fields["what"], wide.fields["what"]) == ("cell_storage_buffer", "cell_offsets", "has_wide_offsets"))),
                   "ghost", line)
         ex.oblige(f"row-decoded-with-the-table-width@L{line}", T(ncols) == ex.entry_env["g_ncols"].t, "ghost", line)
-        return PObj("RowBuffersV", {})
+        return PObj("RowBuffersV", {"owner": buf.fields["owner"]})
     plan.callee(Contract("model:get_storage_buffers_for_row", label="owner", model=sb_callee, when=lambda a: True,
                          note="ghost model used by the storage_buffers contract only: checks which row record each argument belongs to"))
 
     def sb_entry(ex):
         nt = z3.Int(fresh_name("n_tiles"))
-        ex.assume(nt >= 0)
-        return {"self": PObj("ModelSB", {"g_tiles": TilesV(nt)}), "table_id": ex.fresh("int", "table_id"), "g_ncols": ex.fresh("int", "ncols")}
+        ex.assume(z3.And(nt >= 0, FLAT(0) == 0))
+        return {"self": PObj("ModelSB", {"g_tiles": TilesV(nt)}), "table_id": ex.fresh("int", "table_id"), "g_ncols": ex.fresh("int", "ncols"),
+                "g_nt": SInt(nt)}
     mmx = ctx.method_models = getattr(ctx, "method_models", {})
     mmx[("ModelSB", "table_tiles")] = lambda ex, o, a, k, l: o.fields["g_tiles"]
     mmx[("ModelSB", "number_of_columns")] = lambda ex, o, a, k, l: ex.entry_env["g_ncols"]
-    plan.target(Contract("model:_NumbersModel.storage_buffers", entry=sb_entry, ensures=[lambda ex, env: z3.BoolVal(isinstance(env["result"], BufListV))],
+
+    def sb_havoc(ex, env):
+        env["buffers"].ln = z3.Int(fresh_name("nbuf"))
+
+    def sb_post(ex, env):
+        r = env["result"]
+        return z3.And(z3.BoolVal(isinstance(r, BufListV)), r.ln == FLAT(env["g_nt"].t)) if isinstance(r, BufListV) else z3.BoolVal(False)
+    plan.target(Contract("model:_NumbersModel.storage_buffers", entry=sb_entry, ensures=[sb_post],
                          raises={"UnsupportedError": None}, safety="fork", use_labels={"model:get_storage_buffers_for_row": "owner"},
                          search=lambda plan_, c: {"custom": "search_layout", "native_module": plan_.native_module},
+                         canaries=[lambda ex, env: env["result"].ln == 2],
                          local_views={"buffers": lambda ex, env: BufListV()},
-                         loops={1: LoopSpec([lambda ex, env: env["buffers"].ln >= 0], index="_t", havoc=[lambda ex, env: setattr(env["buffers"], "ln", z3.Int(fresh_name("nbuf")))]),
-                                2: LoopSpec([lambda ex, env: env["buffers"].ln >= 0], index="_r", havoc=[lambda ex, env: setattr(env["buffers"], "ln", z3.Int(fresh_name("nbuf")))])}))
+                         loops={1: LoopSpec([lambda ex, env: env["buffers"].ln == FLAT(T(env["_t"]))], index="_t", havoc=[sb_havoc]),
+                                2: LoopSpec([lambda ex, env: z3.And(env["buffers"].ln == FLAT(T(env["_t"])) + T(env["_r"]), T(env["_t"]) >= 0,
+                                                                    T(env["_t"]) < env["g_nt"].t)], index="_r", havoc=[sb_havoc])}))
+
+    # row_storage_map
+    class RowMapV(Custom):
+        """ghost view of the row -> buffer-position map: the initial domain and the log of stores"""
+        def __init__(self, n_init):
+            self.n_init, self.stores = n_init, z3.IntVal(0)
+            self.last_key, self.last_val = z3.IntVal(-1), z3.IntVal(-1)
+
+        def setitem(self, ex, key, v, line):
+            if not (is_intlike(key) and is_intlike(v)):
+                ex.oblige(f"row-map-store@L{line}: a row is mapped to an integer position", z3.BoolVal(False), "ghost", line)
+                return
+            self.last_key, self.last_val, self.stores = T(key), T(v), self.stores + 1
+
+    class TileRefsV(Custom):
+        def __init__(self, n, handed):
+            self.n, self.handed = n, handed
+
+        def length(self, ex):
+            return self.n
+
+        def getitem(self, ex, idx, line):
+            flat_facts(ex, T(idx))
+            ident, tileid = z3.Int(fresh_name("tile_identifier")), z3.Int(fresh_name("tileid"))
+            ex.assume(tileid >= 0)
+            self.handed.append((ident, T(idx)))
+            return PObj("TileRefV", {"tileid": SInt(tileid), "tile": PObj("ReferenceV", {"identifier": SInt(ident)})})
+
+    class ObjectsV(Custom):
+        def __init__(self, table_id, table, handed):
+            self.table_id, self.table, self.handed = table_id, table, handed
+
+        def getitem(self, ex, idx, line):
+            k = T(idx)
+            if k.eq(T(self.table_id)):
+                return self.table
+            for ident, t in self.handed:
+                if k.eq(ident):
+                    return PObj("TileV", {"rowInfos": RowInfosV(t)})
+            ex.oblige(f"objects-key@L{line}: the object store is read with the table's id or with a tile reference of this table", z3.BoolVal(False), "ghost", line)
+            raise Unsupported("objects[...] with an unrelated key")
+
+    def rsm_entry(ex):
+        nt, nrows, ts = z3.Int(fresh_name("n_tiles")), z3.Int(fresh_name("n_rows")), z3.Int(fresh_name("tile_size"))
+        ex.assume(z3.And(nt >= 0, nrows >= 0, ts >= 0, FLAT(0) == 0))
+        handed = []
+        table_id = ex.fresh("int", "table_id")
+        table = PObj("TableModelV", {"number_of_rows": SInt(nrows), "base_data_store": PObj("BDSV", {"tiles": PObj("TileStorageV", {
+            "tile_size": SInt(ts), "tiles": TileRefsV(nt, handed)})})})
+        return {"self": PObj("ModelRSM", {"objects": ObjectsV(table_id, table, handed)}), "table_id": table_id,
+                "g_nt": SInt(nt), "g_nrows": SInt(nrows), "g_ts": SInt(ts)}
+
+    def rsm_init(ex, env):
+        m = RowMapV(env["g_nrows"].t)
+        env["g_map"] = m
+        return m
+
+    def rsm_havoc(ex, env):
+        m = env["g_map"]
+        m.stores, m.last_key, m.last_val = z3.Int(fresh_name("stores")), z3.Int(fresh_name("last_key")), z3.Int(fresh_name("last_val"))
+
+    def ts_eff(env):
+        return z3.If(env["g_ts"].t == 0, z3.IntVal(256), env["g_ts"].t)
+
+    def rsm_step(ex, env):
+        m, ri, tr = env["g_map"], env["row_info"], env["tile_ref"]
+        k = ri.fields["g_flat"].t
+        return z3.And(m.stores == k + 1, m.last_val == k, m.last_key == T(tr.fields["tileid"]) * ts_eff(env) + T(ri.fields["tile_row_index"]))
+
+    def rsm_post(ex, env):
+        r = env["result"]
+        if not isinstance(r, RowMapV):
+            return z3.BoolVal(False)
+        return z3.And(r.stores == FLAT(env["g_nt"].t), r.n_init == env["g_nrows"].t)
+    plan.target(Contract("model:_NumbersModel.row_storage_map", entry=rsm_entry, ensures=[rsm_post], safety="fork",
+                         opaque={"{i: None for i in range(self.objects[table_id].number_of_rows)}": rsm_init},
+                         search=lambda plan_, c: {"custom": "search_row_map", "native_module": plan_.native_module},
+                         canaries=[lambda ex, env: env["result"].stores == 3],
+                         loops={1: LoopSpec([lambda ex, env: z3.And(env["g_map"].stores == FLAT(T(env["_t"])), T(env["idx"]) == FLAT(T(env["_t"])))],
+                                            index="_t", havoc=[rsm_havoc]),
+                                2: LoopSpec([lambda ex, env: z3.And(env["g_map"].stores == FLAT(T(env["_t"])) + T(env["_r"]),
+                                                                    T(env["idx"]) == FLAT(T(env["_t"])) + T(env["_r"]),
+                                                                    T(env["_t"]) >= 0, T(env["_t"]) < env["g_nt"].t)],
+                                            index="_r", havoc=[rsm_havoc], steps=[rsm_step])}))
 
     # chunk boundaries: what decides whether a member is read as an archive at all (C17's is_iwa_file: True iff the data is a sequence of
     # well-formed frames, 3-byte length) and how a framed member is decoded (C05's _decompress_all: one piece per frame, in order)
@@ -495,4 +608,7 @@ def build():
     plan.import_targets(p17, lambda c: c.qual == "iwafile:is_iwa_file")
     p5 = C05.build()
     plan.import_targets(p5, lambda c: c.qual == "iwafile:IWACompressedChunk._decompress_all")
+    for c_ in plan.targets:
+        if getattr(c_, "search", None) is None and getattr(c_, "home", plan) is plan and (True):
+            c_.search = lambda plan_, c: {"custom": "search_layout", "native_module": plan_.native_module}
     return plan
